@@ -84,6 +84,9 @@ Section NewDeclared.
     sdeclared (sc_of st2 q) = if Nat.eqb q t then sdeclared sc ++ [id] else sdeclared (sc_of st q).
   Proof. rewrite nd_sc. destruct (Nat.eqb_spec q t) as [->|]; repeat split; reflexivity. Qed.
 
+  Lemma nd_args q : und_args (sc_of st2 q) = und_args (sc_of st q).
+  Proof. unfold und_args. destruct (nd_fields q) as (_ & _ & -> & _ & -> & _). reflexivity. Qed.
+
   Lemma nd_home_old w : (w < nvars st)%nat -> home' w = home w.
   Proof. intros H. unfold home'. destruct (Nat.eqb_spec w id) as [E|]; [unfold id in E; lia|reflexivity]. Qed.
 
@@ -146,7 +149,9 @@ Section NewDeclared.
     - intros q v1 v2 Hq. destruct (nd_fields q) as (_ & _ & -> & _). intros H1 H2.
       pose proof (stack_ok_in _ _ _ Istack Hq) as Hqn.
       pose proof (Hvalu q v1 Hqn H1) as O1. pose proof (Hvalu q v2 Hqn H2) as O2.
-      unfold vd, vn. rewrite !nd_vget_old by assumption. apply (Ipuniq q); assumption.
+      unfold vd, vn. rewrite !nd_vget_old by assumption.
+      rewrite (argp_ext st st2 home home' v1 (nd_home_old v1 O1) (nd_args _)), (argp_ext st st2 home home' v2 (nd_home_old v2 O2) (nd_args _)).
+      apply (Ipuniq q); assumption.
     - intros r Hr. destruct (nd_old_or_new r Hr) as [Ho| ->].
       + unfold vd. rewrite nd_root_old, nd_vget_old, nd_home_old by exact Ho. intros R D.
         destruct (Ipcomp r Ho R D) as [[H1 H2]|[]]. left. split; [exact H1|].
@@ -171,7 +176,7 @@ Section NewDeclared.
     intros Hw. unfold lab_of. rewrite nd_root_of by exact Hw.
     assert (Hr : (root_of st w < nvars st)%nat).
     { destruct (root_of_spec st home w (I_links _ _ _ _ _ I) (I_homes _ _ _ _ _ I) Hw) as (n & _ & _ & H & _). exact H. }
-    unfold lab_root. rewrite nd_vget_old, nd_home_old by exact Hr. reflexivity.
+    apply lab_root_ext; [rewrite nd_vget_old by exact Hr; reflexivity|rewrite nd_vget_old by exact Hr; reflexivity|apply nd_home_old; exact Hr|apply nd_args].
   Qed.
 
   Lemma nd_lab_new : lab_of st2 home' id = LDecl t x.
@@ -190,7 +195,7 @@ Section NewDeclared.
       apply (I_valid _ _ _ _ _ I s v Hsn). left. exact Hv.
     - apply map_ext_in. intros v Hv.
       assert (Ho : (v < nvars st)%nat) by (apply (I_valid _ _ _ _ _ I s v Hsn); right; exact Hv).
-      unfold uent_of. rewrite nd_vget_old, nd_home_old by exact Ho. reflexivity.
+      apply uent_of_ext; [rewrite nd_vget_old by exact Ho; reflexivity|rewrite nd_vget_old by exact Ho; reflexivity|apply nd_home_old; exact Ho|apply nd_args].
   Qed.
 
   Lemma nd_frame_t :
@@ -204,7 +209,7 @@ Section NewDeclared.
       + cbn. unfold nk. rewrite nd_vget_new. reflexivity.
     - apply map_ext_in. intros v Hv.
       assert (Ho : (v < nvars st)%nat) by (apply (I_valid _ _ _ _ _ I t v Htn); right; exact Hv).
-      unfold uent_of. rewrite nd_vget_old, nd_home_old by exact Ho. reflexivity.
+      apply uent_of_ext; [rewrite nd_vget_old by exact Ho; reflexivity|rewrite nd_vget_old by exact Ho; reflexivity|apply nd_home_old; exact Ho|apply nd_args].
   Qed.
 
   Lemma new_declared_all :
